@@ -290,6 +290,7 @@ impl Report {
         cov.insert("samples".into(), json!(self.samples));
         cov.insert("exhaustive".into(), json!(self.exhaustive));
         cov.insert("caps_hit".into(), json!(self.caps_hit));
+        cov.insert("crashes_not_reproduced_on_fresh_worker".into(), json!(crate::engine::pool::UNCONFIRMED_CRASHES.load(std::sync::atomic::Ordering::SeqCst)));
         let kf: Vec<Value> = by_finding
             .iter()
             .map(|(id, (d, fs))| json!({"id": id, "description": d, "cases": fs.len(), "example": fs[0].case}))
